@@ -7,6 +7,14 @@ from vf import bfs, common, shmworld
 
 SIZES = {"a": 2, "b": 2, "c": 3}
 
+# histories that reach states no bounded search from the empty store reaches (the events are the ShmWorld alphabet)
+_OUT_IN = [("alloc", "a"), ("wclose", "a"), ("alloc", "c"), ("done", 0, "ok"), ("get", "a"), ("done", 0, "ok"), ("get", "a"), ("rclose", "a", 0)]
+PREFIXES = {  # for capacity 4 (a=2, b=2, c=3)
+    "a went to disk and came back": _OUT_IN,
+    "a went to disk, came back, was purged and rewritten": _OUT_IN + [("purge", "a"), ("alloc", "a"), ("wclose", "a")],
+    "a on disk, c resident": [("alloc", "a"), ("wclose", "a"), ("alloc", "c"), ("done", 0, "ok"), ("alloc", "c"), ("wclose", "c")],
+}
+
 
 def space(ctx):
     # (capacity, depth bound)
@@ -14,6 +22,7 @@ def space(ctx):
 
 
 def explore(ctx, prop: str, with_liveness: bool):
+    shmworld.files_base()  # before any fork
     tot = {"states": 0, "transitions": 0}
     depths, closed_all, samples = [], True, []
     t_budget = ctx.pick(1200, 2400)
@@ -34,6 +43,22 @@ def explore(ctx, prop: str, with_liveness: bool):
             return out
 
         r = _bfs(expand, shmworld.build(cfg, []).canon(), depth, time.time() + t_budget / len(space(ctx)))
+        # start from non-initial states too: scripted prefixes that reach states beyond the depth bound (datasets that
+        # went to disk and came back, were purged, leaving files behind), then the same exhaustive exploration from there
+        for pname, prefix in (PREFIXES.items() if cap == 4 else ()):
+            try:
+                w0 = shmworld.build(cfg, prefix)
+            except Exception as e:
+                raise common.HarnessError(f"prefix {pname} cannot be replayed: {e!r}")
+            if w0.viol:
+                raise common.HarnessError(f"prefix {pname} itself violates: {w0.viol}")
+            r2 = bfs.bfs(expand, w0.canon(), ctx.pick(5, 7), deadline=time.time() + t_budget, init_hist=[tuple(e) for e in prefix])
+            tot["states"] += r2["states"]
+            tot["transitions"] += r2["transitions"]
+            depths.append({"capacity": cap, "prefix": pname, "depth_completed": r2["depth"], "closed": r2["closed"], "states": r2["states"], "capped": r2["capped"]})
+            for (mon, cause), (msg, hist) in r2["violations"].items():
+                if prop in shmworld.MON_PROP.get(mon, ()):
+                    ctx.add_violation(common.Violation({"monitor": mon, "cause": cause}, f"[capacity {cap}, from {pname}] {msg}; history={hist}", {"cfg": cfg, "history": hist}))
         tot["states"] += r["states"]
         tot["transitions"] += r["transitions"]
         depths.append({"capacity": cap, "depth_completed": r["depth"], "closed": r["closed"], "states": r["states"], "capped": r["capped"]})
